@@ -100,6 +100,12 @@ def gen_one(rng, k):
     case.pop("cfg", None)
     sys, reqs = case["sys"], case["requests"]
     n = len(sys["vars"])
+    if stream != "spiral":
+        # `ranked` of the model wants eternal variables without formula (their value would be
+        # the one of the first period asked): keep a few, make the others plain inputs
+        for v in sys["vars"]:
+            if v["unit"] == "eternity" and v["formulas"] and rng.random() < 0.85:
+                v["formulas"] = []
     if rules.has_tag(sys, "raise") and rng.random() < 0.6:
         sys["switches"] = sorted({rng.randrange(3) for _ in range(rng.randint(1, 2))})
     if stream != "mutating":
